@@ -34,7 +34,10 @@ def main(argv=None) -> int:
         st = selftest.run(prop)
         core.EXTRA_EVIDENCE["selftest"] = st
         tw = st.get("twin") or {}
-        print(f"SELFTEST property={prop} benign-twin-silent={tw.get('silent')} seeded-changes-reported={st['seeds_reported']}/{st['seeds_total']}")
+        print(f"SELFTEST property={prop} benign-twin-silent={tw.get('silent')} seeded-changes-reported={st['seeds_reported']}/{st['seeds_total']} benign-refactors-silent={st.get('benign_silent')}/{st.get('benign_total')}")
+        for s_ in st.get("benign", []):
+            if not s_.get("silent"):
+                print(f"SELFTEST-FALSE-ALARM property={prop} benign={s_['seed']} exit={s_.get('exit')} {s_.get('first', s_.get('note', ''))[:200]}")
         for s_ in st["seeds"]:
             if not s_.get("reported"):
                 print(f"SELFTEST-MISS property={prop} seed={s_['seed']} {s_.get('note', '')}")
